@@ -87,8 +87,9 @@ func (p *Path) findToken(ts []*Term) *encTokenRec {
 // arbitrary returns an unconstrained value of type t. Integers and booleans are free symbolic
 // values; strings and byte strings follow one of three shapes chosen once per decoded value:
 //   shape 0: "" / nil      shape 1: the local node's name "n0" / 4 free bytes      shape 2: "n1" / 6 free bytes
+//   shape 3: "n1" / 5 free bytes      shape 4: "n2" / 16 free bytes
 func (p *Path) arbitrary(t types.Type, depth int) Value {
-	return p.arbShape(t, p.choose(3))
+	return p.arbShape(t, p.choose(5))
 }
 
 func (p *Path) arbShape(t types.Type, shape int) Value {
@@ -101,7 +102,7 @@ func (p *Path) arbShape(t types.Type, shape int) Value {
 			return p.havoc("decode-arbitrary", w)
 		}
 		if u.Info()&types.IsString != 0 {
-			return mkStr([]string{"", "n0", "n1"}[shape])
+			return mkStr([]string{"", "n0", "n1", "n1", "n2"}[shape])
 		}
 		if u.Info()&types.IsFloat != 0 {
 			return FloatVal{Sym: true}
@@ -114,7 +115,7 @@ func (p *Path) arbShape(t types.Type, shape int) Value {
 		return s
 	case *types.Slice:
 		if b, ok := u.Elem().Underlying().(*types.Basic); ok && b.Kind() == types.Uint8 {
-			n := []int{0, 4, 6}[shape]
+			n := []int{0, 4, 6, 5, 16}[shape]
 			if n == 0 {
 				return SliceVal{Nil: true}
 			}
